@@ -264,6 +264,9 @@ fn c19child(args: &[&str]) -> String {
         let password = "pw";
         let hash = anytls_rs::util::hash_password(password);
         for op in ops.iter() {
+            if op.starts_with("draws=") {
+                continue; // model side only
+            }
             if op == "D" {
                 let _ = PaddingFactory::default();
                 out.push_str("D ");
